@@ -55,6 +55,8 @@ def scheme_config(scheme, rng):
     cfg.update(over)
     if scheme == "CGKO06.SSE1":
         cfg.update(param_s=64, param_dictionary_size=16)
+    if rng.random() < 0.5:
+        cfg["description"] = rng.choice(["Gr\u00f6\u00dfe \u2014 \u6570\u636e\u5e93", "r\u00e9sum\u00e9 \U0001f512", "\u2126hm"])
     return cid, cfg
 
 
